@@ -146,8 +146,30 @@ def check_seps(mido, acc):
     """hex(sep) -> from_hex(sep=sep) for every separator, on one message per
     type and length class."""
     from .parser_common import sample_messages
-    for m in sample_messages(mido):
-        for sep in SEPS:
+    msgs = list(sample_messages(mido))
+    # long messages: counts of separators around 2**k (bulk replace paths)
+    msgs += [mido.Message('sysex', data=[(i * 5) & 0x7F for i in range(n)])
+             for n in (40, 126, 127, 128, 254, 255, 256, 257, 511, 512, 1023,
+                       1024, 5000)]
+    for m in msgs:
+        for sep in SEPS + (None,):
+            if sep is None:
+                # the default separator, and whitespace variants of it
+                for ws in (' ', '\n', '\t', '\r\n', '  '):
+                    acc.evals += 1
+                    text = ws.join('%02X' % b for b in m.bytes())
+                    try:
+                        m2 = mido.Message.from_hex(text)
+                        ok = vars(m2) == vars(m)
+                    except Exception as e:
+                        ok, m2 = False, e
+                    if not ok and len(ws) == 1:
+                        acc.violation('from_hex-whitespace',
+                                      f'from_hex of {len(m.bytes())} bytes '
+                                      f'separated by {ws!r} gave {m2!r:.200}',
+                                      {'kind': 'sep', 'bytes': m.bytes(),
+                                       'sep': ws})
+                continue
             acc.evals += 1
             acc.nontrivial += 1
             case = {'kind': 'sep', 'bytes': m.bytes(), 'sep': sep}
